@@ -357,6 +357,41 @@ impl Prop for C06 {
         let r4: R = guard::with_guarded(s, |g| catch(|| Decimal::from_str(g)));
         let r5: R = guard::with_guarded_front(s, |g| catch(|| Decimal::from_str(g)));
         let core = catch(|| fpdec_core::str_to_dec(s));
+        // ---- all 8 start alignments, with digits as neighbouring bytes: a word-wise reader that
+        // depends on the alignment of its input, or that lets bytes outside the slice leak into
+        // the value, must show up as a different outcome
+        {
+            let len = s.len();
+            let mut buf = vec![b'7'; len + 24];
+            let pad = (8 - (buf.as_ptr() as usize) % 8) % 8;
+            let same = |a: &R, b: &R| match (a, b) {
+                (Ok(Ok(x)), Ok(Ok(y))) => x.coefficient() == y.coefficient() && x.n_frac_digits() == y.n_frac_digits(),
+                (Ok(Err(x)), Ok(Err(y))) => x == y,
+                (Err(_), Err(_)) => true,
+                _ => false,
+            };
+            for off in 0..8usize {
+                let start = pad + off;
+                buf[start..start + len].copy_from_slice(s.as_bytes());
+                let r: R = match std::str::from_utf8(&buf[start..start + len]) {
+                    Ok(g) => catch(|| Decimal::from_str(g)),
+                    Err(_) => break,
+                };
+                ctx.sub();
+                if !same(&r, &r1) {
+                    let show = |r: &R| match r {
+                        Ok(Ok(d)) => format!("Ok({} @{})", d.coefficient(), d.n_frac_digits()),
+                        Ok(Err(e)) => format!("Err({e:?})"),
+                        Err(p) => format!("Panic({p})"),
+                    };
+                    ctx.fail("C06/depends-on-placement", format!("from_str({s:?}) = {} but the same text at address = {off} mod 8 between digit bytes gives {}", show(&r1), show(&r)));
+                    break;
+                }
+                for b in &mut buf[start..start + len] {
+                    *b = b'7';
+                }
+            }
+        }
 
         for (name, r) in [("from_str", &r1), ("try_from(&str)", &r2), ("try_from(String)", &r3), ("from_str@page-end", &r4), ("from_str@page-start", &r5)] {
             ctx.sub();
